@@ -3092,6 +3092,8 @@ class Entity(MutableMapping[str, str]):
         self['classname'] = 'info_null'
         del self['targetname']
         self._keys.clear()
+        # The entity is indexed as info_null, so it has to keep that classname.
+        self._keys['classname'] = 'info_null'
         # Clear $fixup as well.
         self._fixup = None
     clear_keys = clear
